@@ -74,6 +74,17 @@ func (g *fnGen) varName(v *types.Var) string {
 	return coqIdent(v.Name())
 }
 
+// errCode: the code of a package-level error value (--errcode pkgname.Var=N)
+func (g *fnGen) errCode(at ast.Node, o *types.Var) string {
+	if o.Pkg() != nil {
+		if c, ok := g.t.errcode[o.Pkg().Name()+"."+o.Name()]; ok {
+			return c
+		}
+	}
+	g.failf(at, "error value %s has no --errcode", o.Name())
+	return ""
+}
+
 func (g *fnGen) fresh() string {
 	g.tmp++
 	return fmt.Sprintf("_t%d", g.tmp)
@@ -1413,6 +1424,23 @@ func (g *fnGen) assignTo(lhs ast.Expr, v string) []string {
 			// x.f with f a --via field: the instance it stands for
 			return []string{"let " + g.viaVar(lhs, x) + " := " + v + " in"}
 		}
+		if pn := g.t.packedOf(g.typeOf(x.X)); pn != nil {
+			// x.f = v on a packed struct VALUE held in a variable: the value is rebuilt
+			id, ok := ast.Unparen(x.X).(*ast.Ident)
+			if !ok {
+				g.failf(lhs, "assignment to a field of a packed struct that is not a variable")
+			}
+			st := pn.Underlying().(*types.Struct)
+			parts := []string{g.t.packedParam(pn, "").name}
+			for i := 0; i < st.NumFields(); i++ {
+				if st.Field(i).Name() == x.Sel.Name {
+					parts = append(parts, paren(v))
+				} else {
+					parts = append(parts, "("+g.t.packedParam(pn, st.Field(i).Name()).name+" "+g.idName(id)+")")
+				}
+			}
+			return []string{"let " + g.idName(id) + " := " + strings.Join(parts, " ") + " in"}
+		}
 		if n := g.t.objectOf(g.typeOf(x.X)); n != nil {
 			var p []binding
 			st := g.lvalue(lhs, &p)
@@ -1770,6 +1798,13 @@ func (g *fnGen) expr(e ast.Expr, p *[]binding) string {
 			return s
 		}
 		if tv.Value.Kind() == constant.String {
+			if g.t.strid {
+				// --strid: the empty string is the id 0; other constants only inside dropped texts
+				if constant.StringVal(tv.Value) == "" || g.strOK {
+					return "0"
+				}
+				g.failf(e, "non-empty string constant (strings are ids)")
+			}
 			if constant.StringVal(tv.Value) == "" {
 				return "nil_slice"
 			}
@@ -1788,6 +1823,9 @@ func (g *fnGen) expr(e ast.Expr, p *[]binding) string {
 		case *types.Var:
 			if o.Parent() == g.fi.pk.pkg.Scope() || o.Pkg() != g.fi.pk.pkg {
 				if isErrorType(o.Type()) {
+					if len(g.t.errcode) > 0 {
+						return g.errCode(e, o)
+					}
 					return "Err" // a package-level error value: non-nil
 				}
 				g.failf(e, "package-level variable %s", x.Name)
@@ -1829,6 +1867,9 @@ func (g *fnGen) expr(e ast.Expr, p *[]binding) string {
 			return "(" + si.name + "_" + x.Sel.Name + " " + paren(g.expr(x.X, p)) + ")"
 		}
 		if o, ok := g.info.Uses[x.Sel].(*types.Var); ok && isErrorType(o.Type()) {
+			if len(g.t.errcode) > 0 {
+				return g.errCode(e, o)
+			}
 			return "Err" // io.EOF, errors.ErrExhausted ...: a non-nil error value
 		}
 		g.failf(e, "qualified identifier %s", x.Sel.Name)
@@ -1960,7 +2001,7 @@ func (g *fnGen) composite(cl *ast.CompositeLit, p *[]binding) string {
 		st := pn.Underlying().(*types.Struct)
 		vals := make([]string, st.NumFields())
 		for i := range vals {
-			vals[i] = g.t.zeroOf(cl, st.Field(i).Type())
+			vals[i] = "0" // every field of a packed struct is a Z (an integer, an id, a handle)
 		}
 		for i, el := range cl.Elts {
 			if kv, ok := el.(*ast.KeyValueExpr); ok {
@@ -2165,8 +2206,23 @@ func (g *fnGen) binary(x *ast.BinaryExpr, p *[]binding) string {
 				}
 				return t
 			}
+			if _, isPtr := types.Unalias(g.typeOf(other)).(*types.Pointer); isPtr && (x.Op == token.EQL || x.Op == token.NEQ) && g.t.inSubset(g.typeOf(other)) && g.t.coqType(x, g.typeOf(other)) == "Z" {
+				// an optional value as a handle (*time.Time under --timeint): nil is 0
+				t := "(" + paren(g.expr(other, p)) + " =? 0)"
+				if x.Op == token.NEQ {
+					return "(negb " + t + ")"
+				}
+				return t
+			}
 			if !isErrorType(g.typeOf(other)) || (x.Op != token.EQL && x.Op != token.NEQ) {
 				g.failf(x, "comparison of %s with nil", g.typeOf(other))
+			}
+			if len(g.t.errcode) > 0 {
+				t := "(" + paren(g.expr(other, p)) + " =? 0)"
+				if x.Op == token.NEQ {
+					return "(negb " + t + ")"
+				}
+				return t
 			}
 			t := "(is_nil " + paren(g.expr(other, p)) + ")"
 			if x.Op == token.NEQ {
@@ -2188,6 +2244,13 @@ func (g *fnGen) binary(x *ast.BinaryExpr, p *[]binding) string {
 			case token.NEQ:
 				return "(negb (Bool.eqb " + a + " " + b + "))"
 			}
+		}
+		if g.t.strid && isStringType(tx) && isStringType(ty) && (x.Op == token.EQL || x.Op == token.NEQ) {
+			// string ids: equal strings have equal ids
+			if x.Op == token.EQL {
+				return "(" + a + " =? " + b + ")"
+			}
+			return "(negb (" + a + " =? " + b + "))"
 		}
 		if !isIntegerType(tx) || !isIntegerType(ty) {
 			g.failf(x, "comparison of %s and %s", tx, ty)
@@ -2302,6 +2365,9 @@ func (g *fnGen) ifaceTerm(call *ast.CallExpr, p *[]binding) (string, int, bool) 
 
 // effectCall: builtins and library calls that live in the monad
 func (g *fnGen) effectCall(call *ast.CallExpr, p *[]binding) (string, bool) {
+	if nm, ok := g.t.mparamOf(g.fi.pk, call); ok {
+		return nm, true
+	}
 	if id, ok := ast.Unparen(call.Fun).(*ast.Ident); ok {
 		if _, isB := g.info.Uses[id].(*types.Builtin); isB {
 			switch id.Name {
@@ -2430,6 +2496,24 @@ func (g *fnGen) call(call *ast.CallExpr, p *[]binding) string {
 		*p = append(*p, binding{pat: tmp, rhs: term})
 		return tmp
 	}
+	if nm, ok := g.t.mparamOf(g.fi.pk, call); ok {
+		tmp := g.fresh()
+		*p = append(*p, binding{pat: tmp, rhs: nm})
+		return tmp
+	}
+	if g.t.ptimeRecv(g.fi.pk, call) {
+		// t.Before(u) with t a *time.Time: the instant behind the handle, then the comparison
+		sel := ast.Unparen(call.Fun).(*ast.SelectorExpr)
+		a, b := "(ptime_val "+paren(g.expr(sel.X, p))+")", paren(g.expr(call.Args[0], p))
+		switch libName(g.fi.pk, call) {
+		case "(time.Time).Before":
+			return "(" + a + " <? " + b + ")"
+		case "(time.Time).After":
+			return "(" + b + " <? " + a + ")"
+		default:
+			return "(" + a + " =? " + b + ")"
+		}
+	}
 	if g.t.timeInt {
 		// --timeint: time.Time is Z (nanoseconds on one clock)
 		if sel, ok := ast.Unparen(call.Fun).(*ast.SelectorExpr); ok && len(call.Args) == 1 {
@@ -2470,6 +2554,9 @@ func (g *fnGen) call(call *ast.CallExpr, p *[]binding) string {
 	case "fmt.Errorf", "errors.New":
 		for _, a := range call.Args {
 			g.discard(a)
+		}
+		if len(g.t.errcode) > 0 {
+			return "(-1)"
 		}
 		return "Err"
 	case g.t.w.mod + "/cast.StringToByteArray", g.t.w.mod + "/cast.ByteArrayToString":
